@@ -3228,6 +3228,242 @@ theorem sends_bounded (cfg : Config) {net : Net} {N R : Nat} (hN : NetBound net 
 
 end sends
 
+/-! ## 17. `returned_error_in_bailiwick`: the records carried by an error `resolve` returns -/
+
+section returnedErr
+variable {cfg : Config} {net : Net}
+
+theorem provNeg_of_clean {st : St} (h : CacheCleanNeg st) {q : Query} {e : Err}
+    (hg : rcGet st.rcache q = some (.error e)) : ∀ x ∈ errRecords e, Prov st x := by
+  obtain ⟨k, hk⟩ := rcGet_mem hg
+  obtain ⟨a, ha, _, hx⟩ := h k e hk
+  exact fun x hxr => ⟨a, ha, hx x hxr⟩
+
+theorem lookup_err_prov (q : Query) (zone : Name) (pool : Pool) (st : St) (e : Err)
+    (h : (lookup cfg net q zone pool st).2 = .error e) :
+    ∀ x ∈ errRecords e, Prov (lookup cfg net q zone pool st).1 x := by
+  have hl := lookup_frame cfg net q zone pool st
+  intro x hx
+  refine ⟨(pool.zone, zone, q), ?_, hl.2.2.2.2.2.2.2.2 e h x hx⟩
+  rw [hl.2.2.2.1]; simp
+
+theorem nsQuery_err (zone : Name) (pool : Pool) (st : St) (h : CacheCleanNeg st) (e : Err)
+    (he : (nsQuery cfg net zone pool st).2 = .error e) :
+    ∀ x ∈ errRecords e, Prov (nsQuery cfg net zone pool st).1 x := by
+  unfold nsQuery at he ⊢
+  split at he
+  · rename_i v hv
+    dsimp only at he
+    subst he
+    exact provNeg_of_clean h hv
+  · exact lookup_err_prov _ _ _ _ e he
+
+theorem no_records_limit : ∀ x, x ∉ errRecords Err.limit := by intro x hx; simp [errRecords] at hx
+
+/-- the error of one iteration is the error of its NS query (or the depth limit); `buildPool`
+and the recursive calls swallow their errors -/
+theorem nsStep_err (rec : NsRec) (zone : Name) (depth : Nat) (pool : Pool) (st : St)
+    (h : CacheCleanNeg st) (st' : St) (e : Err)
+    (he : nsStep cfg net rec zone depth pool st = (st', .fail e)) :
+    ∀ x ∈ errRecords e, Prov st' x := by
+  unfold nsStep at he
+  split at he
+  · cases he
+  · split at he
+    · cases he; intro x hx; exact absurd hx (no_records_limit x)
+    · have hq := nsQuery_err (cfg := cfg) (net := net) zone pool st h
+      split at he
+      · rename_i st1 e1 heq
+        rw [heq] at hq
+        split at he
+        · cases he; exact hq e rfl
+        · cases he
+      · split at he
+        · cases he
+        · split at he; cases he
+
+theorem nsLoop_err {rec : NsRec} (hrec : NsRecOK CacheCleanNeg (fun _ => True) rec) :
+    ∀ (zs : List Name) (depth : Nat) (pool : Pool) (st : St), CacheCleanNeg st →
+      ∀ e, (nsLoop cfg net rec zs depth pool st).2 = .error e →
+        ∀ x ∈ errRecords e, Prov (nsLoop cfg net rec zs depth pool st).1 x := by
+  intro zs
+  induction zs with
+  | nil => intro depth pool st _ e he; simp only [nsLoop] at he; cases he
+  | cons z zs ih =>
+    intro depth pool st h e he
+    have hs := nsStep_stable (cacheCleanNeg_stable cfg net).toStableNs hrec z zs depth pool trivial
+      trivial st h
+    unfold nsLoop at he ⊢
+    split at he
+    · rename_i st1 e1 heq
+      cases he
+      exact nsStep_err rec z depth pool st h st1 e heq
+    · rename_i st1 d1 p1 heq
+      rw [heq] at hs
+      exact ih d1 p1 st1 hs.1 e he
+
+theorem nsPoolForName_err (n : Name) (d : Nat) (st : St) (h : CacheCleanNeg st) (e : Err)
+    (he : (nsPoolForName cfg net n d st).2 = .error e) :
+    ∀ x ∈ errRecords e, Prov (nsPoolForName cfg net n d st).1 x :=
+  nsLoop_err (nsPoolFuel_stable (cacheCleanNeg_stable cfg net).toStableNs _) _ _ _ _ h e he
+
+theorem answerQuery_err (q : Query) (pool : Pool) (st : St) (h : CacheCleanNeg st) (e : Err)
+    (he : (answerQuery cfg net q pool st).2 = .error e) :
+    ∀ x ∈ errRecords e, Prov (answerQuery cfg net q pool st).1 x := by
+  unfold answerQuery at he ⊢
+  split at he
+  · rename_i e0 hg
+    cases he
+    exact provNeg_of_clean h hg
+  · split at he
+    · cases he
+    · rename_i haa
+      simp only [haa]
+      exact lookup_err_prov _ _ _ _ e he
+  · exact lookup_err_prov _ _ _ _ e he
+
+def ResErr (rec : ResRec) : Prop :=
+  ResRecOK CacheCleanNeg rec ∧
+    ∀ q d st, CacheCleanNeg st → ∀ e, (rec q d st).2 = .error e →
+      ∀ x ∈ errRecords e, Prov (rec q d st).1 x
+
+theorem chaseLoop_err {rec : ResRec} (hrec : ResErr rec) (resp : Response) (qtype depth : Nat) :
+    ∀ (rs chain : List Record) (st : St), CacheCleanNeg st →
+      ∀ e, (chaseLoop rec resp qtype depth rs chain st).2 = .error e →
+        ∀ x ∈ errRecords e, Prov (chaseLoop rec resp qtype depth rs chain st).1 x := by
+  intro rs
+  induction rs with
+  | nil => intro chain st _ e he; simp only [chaseLoop] at he; cases he
+  | cons r rs ih =>
+    intro chain st h e he
+    unfold chaseLoop at he ⊢
+    split at he
+    · exact ih chain st h e he
+    · rename_i target _
+      split at he
+      · rename_i hany
+        simp only [hany, ↓reduceIte]
+        exact ih chain st h e he
+      · rename_i hany
+        simp only [hany]
+        dsimp only at he ⊢
+        split at he
+        · rename_i hgt
+          simp only [hgt, ↓reduceIte]
+          cases he; intro x hx; simp [errRecords] at hx
+        · rename_i hgt
+          simp only [hgt, ↓reduceIte]
+          have hst : CacheCleanNeg { st with cnames := st.cnames + 1 } := h
+          have hcl := hrec.1 ⟨target, qtype⟩ depth _ hst
+          have her := hrec.2 ⟨target, qtype⟩ depth _ hst
+          split at he
+          · rename_i st1 e1 heq
+            rw [heq] at her
+            cases he
+            exact her e rfl
+          · rename_i st1 r' heq
+            rw [heq] at hcl
+            exact ih _ st1 hcl e he
+
+theorem resolveCnames_err {rec : ResRec} (hrec : ResErr rec) (resp : Response) (q : Query)
+    (depth : Nat) (st : St) (h : CacheCleanNeg st) (e : Err)
+    (he : (resolveCnames cfg rec resp q depth st).2 = .error e) :
+    ∀ x ∈ errRecords e, Prov (resolveCnames cfg rec resp q depth st).1 x := by
+  unfold resolveCnames at he ⊢
+  split at he
+  · cases he
+  · rename_i hq
+    simp only [hq]
+    split at he
+    · cases he
+    · rename_i hc
+      simp only [hc]
+      dsimp only at he ⊢
+      split at he
+      · cases he; intro x hx; exact absurd hx (no_records_limit x)
+      · rename_i hlim
+        simp only [hlim]
+        have hc := chaseLoop_err hrec resp q.qtype (depth + 1) resp.all [] st h
+        split at he
+        · rename_i st1 e1 heq
+          rw [heq] at hc
+          cases he
+          exact hc e rfl
+        · cases he
+
+theorem resolveMiss_err {rec : ResRec} (hrec : ResErr rec) (q : Query) (depth : Nat) (st : St)
+    (h : CacheCleanNeg st) (e : Err) (he : (resolveMiss cfg net rec q depth st).2 = .error e) :
+    ∀ x ∈ errRecords e, Prov (resolveMiss cfg net rec q depth st).1 x := by
+  unfold resolveMiss at he ⊢
+  dsimp only at he ⊢
+  have hn := nsPoolForName_stable (cacheCleanNeg_stable cfg net).toStableNs
+    (if q.qtype == T_DS then base q.name else q.name) depth st h
+  have hne := nsPoolForName_err (cfg := cfg) (net := net)
+    (if q.qtype == T_DS then base q.name else q.name) depth st h
+  split at he
+  · rename_i st1 e1 heq
+    rw [heq] at hne
+    split at he
+    · rename_i hnx
+      simp only [hnx, ↓reduceIte]
+      cases he; exact hne e rfl
+    · cases he; intro x hx; simp [errRecords] at hx
+  · rename_i st1 d1 pool heq
+    rw [heq] at hn
+    have ha := answerQuery_stable (cacheCleanNeg_stable cfg net).toStableNs q pool trivial st1 hn.1
+    have hae := answerQuery_err (cfg := cfg) (net := net) q pool st1 hn.1
+    split at he
+    · rename_i st2 e2 heq2
+      rw [heq2] at hae
+      cases he
+      exact hae e rfl
+    · rename_i st2 resp heq2
+      rw [heq2] at ha
+      exact resolveCnames_err hrec resp q d1 st2 ha e he
+
+theorem resolveFuel_err : ∀ f, ResErr (resolveFuel cfg net f) := by
+  intro f
+  induction f with
+  | zero =>
+    refine ⟨resolveFuel_stable (cacheCleanNeg_stable cfg net) 0, ?_⟩
+    intro q d st _ e he
+    simp only [resolveFuel] at he
+    cases he
+    intro x hx; simp [errRecords] at hx
+  | succ f ih =>
+    refine ⟨resolveFuel_stable (cacheCleanNeg_stable cfg net) _, ?_⟩
+    intro q d st h e he
+    unfold resolveFuel at he ⊢
+    split at he
+    · rename_i e0 hg
+      cases he
+      exact provNeg_of_clean h hg
+    · rename_i r0 hg
+      split at he
+      · rename_i haa
+        simp only [haa, ↓reduceIte]
+        exact resolveCnames_err ih r0 q d st h e he
+      · rename_i haa
+        simp only [haa]
+        exact resolveMiss_err ih q d st h e he
+    · exact resolveMiss_err ih q d st h e he
+
+/-- **`returned_error_in_bailiwick`**: every record carried by an error `Recursor::resolve`
+returns (the SOA / authority records of `RecursorError::Negative`, the NS + glue of `ForwardNS`) —
+from the network or from the cache — passed the bailiwick rule of a recorded `lookup` call.  For
+every network and every starting cache whose negative entries are clean. -/
+theorem returned_error_in_bailiwick (cfg : Config) (net : Net) (q : Query) (st : St)
+    (h : CacheCleanNeg st) (e : Err) (he : (resolve cfg net q st).2 = .error e) :
+    ∀ x ∈ errRecords e, Prov (resolve cfg net q st).1 x := by
+  unfold resolve at he ⊢
+  split at he
+  · cases he; intro x hx; simp [errRecords] at hx
+  · rename_i hf
+    simp only [hf]
+    exact (resolveFuel_err (cfg := cfg) (net := net) _).2 q 0 { st with cnames := 0 } h e he
+
+end returnedErr
+
 /-! non-vacuity of the composite statements: the empty state satisfies every invariant -/
 example (cfg : Config) (net : Net) (q : Query) :=
   cached_in_pool_bailiwick cfg net q St.empty cacheClean_empty askedSound_empty
@@ -3235,5 +3471,7 @@ example (cfg : Config) (net : Net) (q : Query) :=
   answers_allowed cfg net q St.empty (cacheAns_empty cfg)
 example (cfg : Config) (net : Net) (q : Query) :=
   ns_addrs_allowed cfg net q St.empty (addrInv_empty cfg)
+example (cfg : Config) (net : Net) (q : Query) :=
+  returned_error_in_bailiwick cfg net q St.empty cacheCleanNeg_empty
 
 end HickoryVerif.C19
